@@ -7,7 +7,9 @@ import vlib, ukv_common as U
 
 # header variants: every combination of empty / non-empty comment and descriptor block, a foreign magic, a long comment
 HDRS = [dict(), dict(h2=b"a comment", b0=b"\x00\x01descr"), dict(h1=b"ML10Library", h2=b"x" * 300),
-        dict(h2=b"only a comment"), dict(b0=b"only a descriptor\x00")]
+        dict(h2=b"only a comment"), dict(b0=b"only a descriptor\x00"),
+        # the object that CREATED the file (mode w / x) is kept as handle 0 and reopened, also without naming a mode
+        dict(creator="w"), dict(creator="x", h2=b"made with x", b0=b"\x07")]
 
 
 def exhaustive_histories(depth):
